@@ -18,15 +18,15 @@ import (
 // need: each trans flag must come from a test of that operand.
 
 type lgEntry struct {
-	Rule    string   // L1 raw access guard, L3 order agreement, L4 exporter order, LB BLAS gateway
-	Func    string   // function key
-	Site    string   // substring of the statement that performs the access
-	Goal    string   // canonical boolean formula that must hold ("" = none)
-	Decides []string // atoms the path must have branched on
-	OrStep  string   // alternatively, a statement containing this text occurs earlier on the path
-	NotAfter string  // paths on which a statement containing this text occurs are not instances (error exits)
-	Props   []string
-	Why     string
+	Rule     string   // L1 raw access guard, L3 order agreement, L4 exporter order, LB BLAS gateway
+	Func     string   // function key
+	Site     string   // substring of the statement that performs the access
+	Goal     string   // canonical boolean formula that must hold ("" = none)
+	Decides  []string // atoms the path must have branched on
+	OrStep   string   // alternatively, a statement containing this text occurs earlier on the path
+	NotAfter string   // paths on which a statement containing this text occurs are not instances (error exits)
+	Props    []string
+	Why      string
 }
 
 var lgTable = []lgEntry{
